@@ -187,8 +187,8 @@ func checkProperty(prop string, tier int, tierName string, re *regexp.Regexp, cf
 			}
 			e.feasQueries++
 			q := e.st.buildQuery(hyps, nil, false, nil)
-			r := portfolio([]SolverCfg{z3new}, q, 10*time.Second)
-			return r.Verdict != "unsat"
+			q = strings.Replace(q, "(check-sat)\n", "", 1)
+			return feasSolver.check(q) != "unsat"
 		}
 		registerAsm(e, l)
 		base, err := e.runInits(l)
@@ -444,6 +444,7 @@ func checkProperty(prop string, tier int, tierName string, re *regexp.Regexp, cf
 	b, _ := json.MarshalIndent(ev, "", " ")
 	os.WriteFile(filepath.Join(evDir, prop+".json"), b, 0o644)
 
+	feasSolver.stop()
 	// report
 	fmt.Printf("property %s tier=%s configs=%v harnesses=%d cases=%d obligations=%d discharged=%d (solver %d, simplifier %d) sat=%d unknown=%d reach-ok=%d faults=%d wall=%.1fs\n",
 		prop, tierName, cfgs, harnessCount, cases, nObl, nUnsat+nTriv, nUnsat, nTriv, nSat, nUnk, nReachOK, len(faults), time.Since(t0).Seconds())
